@@ -29,6 +29,7 @@ type ruleModel struct {
 	setLast    map[string]data.Point
 	changes    int
 	batches    int
+	sched      map[int]schedSpec // index into conds -> calendar model of a schedule condition
 }
 
 func condMatches(c client.Condition, nodeID string, p data.Point) bool {
@@ -86,6 +87,19 @@ func (m *ruleModel) process(nodeID string, pts data.Points) {
 			m.condActive[i] = condEval(c, p)
 		}
 	}
+	m.recompute()
+}
+
+// evalSched is a schedule trigger processed at instant t: every schedule condition takes the calendar's value.
+func (m *ruleModel) evalSched(t time.Time) {
+	for i, sp := range m.sched {
+		m.condActive[i] = sp.active(t)
+	}
+	m.recompute()
+}
+
+// recompute: the rule is active exactly when all conditions are; on a change the matching action list runs once.
+func (m *ruleModel) recompute() {
 	all := true
 	for _, a := range m.condActive {
 		if !a {
@@ -168,14 +182,20 @@ func (h *ruleHarness) compare(final bool) {
 		return n[0], true
 	}
 	for i, c := range m.conds {
-		if c.ConditionType != data.PointValuePointValue {
-			continue
-		}
 		n, ok := get(m.rule.ID, c.ID)
 		if !ok {
 			return
 		}
 		p, _ := pointOf(n.Points, data.PointTypeActive)
+		if c.ConditionType == data.PointValueSchedule {
+			if (p.Value != 0) != m.condActive[i] {
+				s.Fail("C13", "schedule-condition-active", "schedule condition %s (start=%s end=%s weekdays=%v dates=%v) is stored active=%v at %s, the trigger time falls %s its window",
+					c.ID, c.Start, c.End, c.Weekdays, c.Dates, p.Value != 0, time.Now().UTC().Format(time.RFC3339), map[bool]string{true: "inside", false: "outside"}[m.condActive[i]])
+				return
+			}
+			s.Probe(fmt.Sprintf("schedule-condition-compared-%v", m.condActive[i]))
+			continue
+		}
 		if (p.Value != 0) != m.condActive[i] {
 			s.Fail("C13", "condition-active", "condition %s (%s %s %s %v/%q, node=%q type=%q key=%q) is stored active=%v, the latest matching point processed by the rule makes it %v (after %d batches)",
 				c.ID, c.ValueType, c.Operator, "", c.Value, c.ValueText, c.NodeID, c.PointType, c.PointKey, p.Value != 0, m.condActive[i], m.batches)
@@ -372,6 +392,67 @@ func runC13(s *Sim) {
 		cc := c
 		s.Call(func() { sendType(s, setup, cc) })
 	}
+	// One run in four adds a schedule condition.  The rule evaluates it on its own 10 s ticker, which the evaluator cannot
+	// see, so the run is arranged so that no order matters: the first tick happens before the workload starts, no window
+	// boundary lies within the workload's time span (checked at the end), and the clock is moved across the next one or
+	// two boundaries after the workload, with nothing in flight.  A tick also presents a trigger point (no type, no key,
+	// the rule's id) to the point conditions, so in these runs every point condition filters on a type.
+	var sched *schedSpec
+	if wl.Chance(1, 4) {
+		sp := schedSpec{}
+		pickMin := func() int {
+			if wl.Chance(1, 5) {
+				return 0
+			}
+			return 26 + wl.Draw(155) // boundaries within three hours of the run's start: crossing one costs few ticks
+		}
+		sp.StartMin = pickMin()
+		switch wl.Draw(3) {
+		case 0:
+			sp.EndMin = sp.StartMin // a full day from the start time
+		default:
+			sp.EndMin = pickMin()
+		}
+		if wl.Chance(1, 2) {
+			sp.AnyWeekday = true
+			for i := 0; i < 7; i++ {
+				sp.Weekdays[i] = wl.Chance(1, 2)
+			}
+			sp.Weekdays[[]int{5, 6, 0}[wl.Draw(3)]] = true // Friday, Saturday or Sunday: the days the run touches
+		}
+		if wl.Chance(1, 4) {
+			sp.Dates = []string{[]string{"1999-12-31", "2000-01-01", "2000-01-02"}[wl.Draw(3)]}
+		}
+		sched = &sp
+		c := client.Condition{ID: "s1", Parent: "R", Description: "sched", ConditionType: data.PointValueSchedule,
+			Start: fmtHM(sp.StartMin, wl.Chance(1, 2)), End: fmtHM(sp.EndMin, wl.Chance(1, 2)), Dates: sp.Dates}
+		if sp.AnyWeekday {
+			c.Weekdays = sp.Weekdays[:]
+		}
+		for i := range model.conds {
+			if model.conds[i].PointType == "" {
+				model.conds[i].PointType = "value"
+				cc := model.conds[i]
+				s.Call(func() { sendType(s, setup, cc) })
+			}
+		}
+		model.sched = map[int]schedSpec{len(model.conds): sp}
+		model.conds = append(model.conds, c)
+		model.condActive = append(model.condActive, false)
+		s.Call(func() { sendType(s, setup, c) })
+		// every "active" point the rule writes to the schedule condition is right for its own time stamp
+		tr.OnWrite = func(w *WriteRec) {
+			if w.NodeID != "s1" || w.Edge || w.From != "mgr" {
+				return
+			}
+			for _, p := range w.Pts {
+				if p.Type == data.PointTypeActive && (p.Value != 0) != sp.active(p.Time) {
+					s.Fail("C13", "schedule-condition-active", "the rule marked its schedule condition active=%v at %s (%s), the trigger time falls %s the window (start=%s end=%s weekdays=%v dates=%v)",
+						p.Value != 0, p.Time.UTC().Format(time.RFC3339Nano), p.Time.UTC().Weekday(), map[bool]string{true: "inside", false: "outside"}[sp.active(p.Time)], c.Start, c.End, c.Weekdays, c.Dates)
+				}
+			}
+		}
+	}
 	mkAction := func(id string) client.Action {
 		a := client.Action{ID: id, Parent: "R", Description: "act", Action: data.PointValueSetValue, NodeID: "tA",
 			PointType: []string{"value", "out"}[wl.Draw(2)], ValueType: data.PointValueNumber, Value: valPool[wl.Draw(len(valPool))]}
@@ -404,6 +485,16 @@ func runC13(s *Sim) {
 	s.AdvanceIdle(2 * time.Second) // manager scan, rule client construction and subscription
 	if s.Failed() {
 		return
+	}
+	var schedStart time.Time
+	if sched != nil {
+		s.AdvanceIdle(12 * time.Second) // the first tick
+		schedStart = time.Now()
+		model.evalSched(schedStart)
+		h.compare(true)
+		if s.Failed() {
+			return
+		}
 	}
 
 	nW := wl.Range(1, 3)
@@ -469,6 +560,41 @@ func runC13(s *Sim) {
 	h.compare(true)
 	if s.Failed() {
 		return
+	}
+	if sched != nil {
+		if sched.active(time.Now().Add(15*time.Second)) != sched.active(schedStart) {
+			s.Probe("schedule: a window boundary fell into the workload's time span (order ambiguous, not judged further)")
+			h.stopManager()
+			return
+		}
+		// move the clock across the next boundaries of the window, with nothing in flight
+		for j := 0; j < 2 && !s.Failed(); j++ {
+			now := time.Now()
+			cur := sched.active(now)
+			m0 := now.Truncate(time.Minute).Add(time.Minute)
+			var tb time.Time
+			for k := 0; k < 4*60; k++ {
+				if t := m0.Add(time.Duration(k) * time.Minute); sched.active(t) != cur {
+					tb = t
+					break
+				}
+			}
+			if tb.IsZero() {
+				s.Probe("schedule: no boundary within 4 h")
+				break
+			}
+			s.AdvanceIdle(tb.Sub(now) + 12*time.Second)
+			model.evalSched(time.Now())
+			tr.CheckState(true)
+			if s.Failed() {
+				return
+			}
+			h.compare(true)
+			s.Probe("schedule: boundary crossed")
+		}
+		if s.Failed() {
+			return
+		}
 	}
 	h.stopManager()
 }
